@@ -151,3 +151,8 @@ func WaitOrHang(done <-chan struct{}) bool {
 		return false
 	}
 }
+
+var uniq int64
+
+// UniquePrefix returns a process-wide unique id prefix ("k<n>-") for hook ids of one run.
+func UniquePrefix() string { return fmt.Sprintf("k%d-", atomic.AddInt64(&uniq, 1)) }
